@@ -114,7 +114,10 @@ def run_rule(ctx, rule_name):
     element = (list(emlkit.elements_of(rule_name)) or [emlkit.synthetic_name(rule_name)])[0]
     live = m.live_symbols()
     # allowed-child query
-    for a in names + ["verifForeignElement", "", "Title"]:
+    near = []
+    for nm in names[:6]:
+        near += [nm[:-1], nm + "x", nm.upper(), nm[:1]]
+    for a in names + ["verifForeignElement", "", "Title"] + [x for x in near if x not in names]:
         ctx.evaluated()
         try:
             says = r.is_allowed_child(a)
